@@ -32,6 +32,22 @@ PANICKING_APIS = [
     ("alloc::string::String::insert_str", "range"),
     ("alloc::string::String::remove", "range"),
     ("alloc::string::String::split_off", "range"),
+    ("alloc::string::String::truncate", "range"),                 # panics when the new length is not on a char boundary
+    ("core::str::<impl str>::split_at_mut", "range"),
+    ("core::slice::<impl [T]>::swap", "range"),
+    ("core::slice::<impl [T]>::rotate_left", "range"),
+    ("core::slice::<impl [T]>::rotate_right", "range"),
+    ("core::slice::<impl [T]>::chunks_exact", "range"),
+    ("core::slice::<impl [T]>::chunks_mut", "range"),
+    ("core::slice::<impl [T]>::rchunks", "range"),
+    ("core::slice::<impl [T]>::clone_from_slice", "range"),
+    ("core::slice::<impl [T]>::copy_within", "range"),
+    ("alloc::vec::Vec::splice", "range"),
+    ("alloc::vec::Vec::extend_from_within", "range"),
+    ("core::char::methods::<impl char>::to_digit", "range"),
+    ("core::char::methods::<impl char>::from_digit", "range"),
+    ("tokio::time::interval::interval", "time"),
+    ("tokio::time::interval::interval_at", "time"),
     ("alloc::vec::Vec::remove", "range"),
     ("alloc::vec::Vec::swap_remove", "range"),
     ("alloc::vec::Vec::insert", "range"),
